@@ -150,10 +150,14 @@ class Multiline:
       # (every value is read here: a value which cannot be parsed is found
       # before any tag is merged)
       value = gfa_line.get(of)
+      datatype = gfa_line.get_datatype(of)
+      if self.vlevel >= 3:
+        # (add() validates the values at this level: a header line which was
+        # built with a lower level may carry a value which is refused)
+        gfapy.Field._validate_gfa_field(value, datatype, of)
       prev = self.get(of)
       if prev is None:
         continue
-      datatype = gfa_line.get_datatype(of)
       if isinstance(prev, gfapy.FieldArray):
         prev_datatype = prev.datatype
       elif of in self.SINGLE_DEFINITION_TAGS:
